@@ -39,7 +39,9 @@ MANIFEST = dict(
           "of the convolution included), the empty polynomial is neutral for + - and absorbing for *, "
           "the derivative is linear and satisfies the product rule (as equalities of coefficient lists), derivative_n p (deg+1) is empty and higher "
           "orders panic; is_zero / trim / index specifications (where == decides equality); instantiated at Qc. The same Gallina "
-          "functions are run against the implementation (Rat vs Qc exact; f64 and Complex<f64> bitwise) on every pair of lengths 0..9, "
+          "functions are run against the implementation (Rat vs Qc exact on every pair of lengths 0..9; f64 and Complex<f64> bitwise -- in the quick tier every pair with an "
+          "empty operand for both float kinds and every pair of non-empty lengths for ONE of the two float kinds, by the parity of the sum of the lengths; in the thorough "
+          "tier every pair for every kind), "
           "plus general inexact floats (bitwise: pins the order of the floating-point operations), plus operands with special structure (equal / negated / scaled / shifted operands, "
           "all-zero, one-term, negative zeros, special values 0 1 -1 2 1/2 +-i as coefficients, evaluation points and scalar factors) and histories (index-assign, trim, coeffs() "
           "followed by the views and operators; search only), "
@@ -410,6 +412,8 @@ def oracle_hist(elt, vals, st):
     # H3: trim; p[i] = x
     t = _trimmed(P)
     if not P or i >= len(t):
+        # (empty p: trim may panic, as pinned, or change nothing -- H2 and oracle_ring accept both; the assignment p[i] = x that
+        # follows is beyond the size 0 and panics in either case, so the block's answer is a panic whatever trim does)
         m = want_panic("H3 trim; p[%d] = x beyond the trimmed size %d" % (i, len(t)))
     else: m = _exp_poly("H3 p after trim; p[%d] = %s" % (i, X), st.poly_or_panic(), t[:i] + [X] + t[i + 1:])
     if m: return m
@@ -426,7 +430,17 @@ def oracle_hist(elt, vals, st):
     if m: return m
     # H6: trim then operate
     if not P:
-        m = want_panic("H6 trim of the empty polynomial")
+        # trim of the empty polynomial: a panic (as pinned) or no change, as in H2 / oracle_ring.  Without a panic t is still the
+        # empty polynomial: it acts as zero in t+q, t*q, q-t; eval of the empty polynomial is a panic (then the whole block is one
+        # panic token) or the value zero; its derivative is outside the claim
+        if st.peek_panic(): st.pos += 1
+        else:
+            m = (_exp_poly("H6 trim(empty)+q", st.poly(), ref_add([], Q)) or _exp_poly("H6 trim(empty)*q", st.poly(), ref_mul([], Q, z))
+                 or _exp_poly("H6 q-trim(empty)", st.poly(), ref_sub(Q, [])))
+            if not m:
+                v = st.scalar()
+                if not (v == z): m = "H6 eval of the empty polynomial returned %s (neither a panic nor zero)" % (v,)
+                else: st.poly()
     elif st.peek_panic():
         m = "H6 trim p, then t+q, t*q, q-t, t(x), t' panicked"
     else:
